@@ -7,6 +7,8 @@ import (
 	"strings"
 	"sync/atomic"
 	"time"
+
+	"github.com/markkurossi/mpc/p2p"
 )
 
 // slowFailures counts sessions of this process that stalled or timed out.
@@ -34,6 +36,15 @@ type PairOutcome struct {
 // stalls, or the budget is exhausted, the pipe is closed so that the other
 // party's pending Read fails.  Panics are recovered per goroutine.
 func RunPair(d *Duplex, a, b func() ([]*big.Int, error),
+	stallGrace, budget time.Duration) PairOutcome {
+
+	out := runPair(d, a, b, stallGrace, budget)
+	Release(out, d.conns...)
+	d.conns = nil
+	return out
+}
+
+func runPair(d *Duplex, a, b func() ([]*big.Int, error),
 	stallGrace, budget time.Duration) PairOutcome {
 
 	// Once a session of this process has stalled or timed out, later
@@ -123,6 +134,25 @@ func RunPair(d *Duplex, a, b func() ([]*big.Int, error),
 		}
 	}
 	return out
+}
+
+// Release stops the writer goroutines of the connections of a finished session
+// (p2p.NewConn starts one per connection; it keeps the 1 MB read buffer and the
+// write buffers of the connection alive until Conn.Close).  Nothing is done
+// when a party goroutine is still running: it may still use its connection.
+func Release(out PairOutcome, conns ...*p2p.Conn) {
+	if !out.A.Done || !out.B.Done {
+		return
+	}
+	for _, c := range conns {
+		func() {
+			defer func() { recover() }()
+			// Nothing is flushed any more: the session is over and the
+			// recorded transcript must stay what the parties sent.
+			c.WritePos = 0
+			c.Close()
+		}()
+	}
 }
 
 func trimStack(st []byte) string {
